@@ -8,7 +8,7 @@ Extraction "skv_model.ml"
   Params.WAL_BLOCK_SIZE Params.WAL_HEADER_SIZE
   Machine.step Machine.m0
   CompactKey.compact_key CompactKey.insert_desc CompactKey.dedup_seq
-  Lock.do_open Lock.do_close Lock.do_drop Lock.do_drop_detached Lock.do_runtime_gone Lock.do_commit Lock.do_kill Lock.s0 Lock.pc_of LockInst.current
+  Lock.do_open Lock.do_close Lock.do_drop Lock.do_drop_detached Lock.do_runtime_gone Lock.do_commit Lock.do_kill Lock.do_checkpoint Lock.do_restore Lock.lock_identity Lock.lock_owner Lock.s0 Lock.pc_of LockInst.current
   RangeIter.ri_init RangeIter.ri_step RangeIter.ri_get RangeIter.restrict RangeIter.ri_run_bounded
   Oracle.o_new Oracle.check Oracle.publish Oracle.rollback Oracle.reset_for_restore Oracle.observe_key
   CommitSeq.c0 CommitSeq.cs_step Params.ORACLE_GC_INTERVAL
